@@ -458,6 +458,9 @@ func runC19(env *lib.Env, rep *lib.Report) {
 			rec(nil)
 			// (b) every injective mapping of CSV fields {0,1,2} to a non-empty ordered subset of the columns x separators
 			reprs := [][]c19Record{{alphabet[0]}, {alphabet[1], alphabet[0]}, {alphabet[len(alphabet)-1], alphabet[0], alphabet[2%len(alphabet)]}}
+		// a record with too few fields between valid ones (reporting it must not disturb the mapping of the others)
+		short := c19Record{fields: append([]string{}, valid...), defect: "short"}
+		reprs = append(reprs, []c19Record{short, alphabet[0]}, []c19Record{alphabet[0], short, alphabet[1], alphabet[0]})
 			var dsts [][]int
 			var sub func(cur []int)
 			sub = func(cur []int) {
